@@ -52,16 +52,20 @@ pub fn check_u32(x: u32, b: &mut Bufs) -> Result<(), String> {
     if sc.size() != b.reference.len() || b.reference.len() != expected_len(x) {
         return Err(format!("u32 {x}: SizeCalculator {} reference {} minimal {}", sc.size(), b.reference.len(), expected_len(x)));
     }
-    b.vec.push(SENTINEL);
-    let mut s = SliceInput::new(&b.vec);
-    let r1 = (s.read_var_u32().ok(), s.read_u8().ok());
-    let mut o = OwnedInput::new(b.vec.clone());
-    let r2 = (o.read_var_u32().ok(), o.read_u8().ok());
-    let mut c = DeserializationContext::new(&b.vec);
-    let r3 = (c.read_var_u32().ok(), c.read_u8().ok());
-    let want = (Some(x), Some(SENTINEL));
-    if r1 != want || r2 != want || r3 != want {
-        return Err(format!("u32 {x}: read back Slice {r1:?} Owned {r2:?} Context {r3:?} from {:02x?}", b.vec));
+    let len = b.vec.len();
+    for &tail in tails(x) {
+        b.vec.truncate(len);
+        b.vec.extend_from_slice(&TAIL[..tail]);
+        let mut s = SliceInput::new(&b.vec);
+        let r1 = (s.read_var_u32().ok(), s.read_u8().ok());
+        let mut o = OwnedInput::new(b.vec.clone());
+        let r2 = (o.read_var_u32().ok(), o.read_u8().ok());
+        let mut c = DeserializationContext::new(&b.vec);
+        let r3 = (c.read_var_u32().ok(), c.read_u8().ok());
+        let want = (Some(x), TAIL[..tail].first().copied());
+        if r1 != want || r2 != want || r3 != want {
+            return Err(format!("u32 {x}: read back Slice {r1:?} Owned {r2:?} Context {r3:?} from {:02x?}", b.vec));
+        }
     }
     Ok(())
 }
@@ -80,18 +84,35 @@ pub fn check_i32(x: i32, b: &mut Bufs) -> Result<(), String> {
     if sc.size() != b.reference.len() || b.reference.len() != expected_len(z) {
         return Err(format!("i32 {x}: SizeCalculator {} reference {} minimal {}", sc.size(), b.reference.len(), expected_len(z)));
     }
-    b.vec.push(SENTINEL);
-    let mut s = SliceInput::new(&b.vec);
-    let r1 = (s.read_var_i32().ok(), s.read_u8().ok());
-    let mut o = OwnedInput::new(b.vec.clone());
-    let r2 = (o.read_var_i32().ok(), o.read_u8().ok());
-    let mut c = DeserializationContext::new(&b.vec);
-    let r3 = (c.read_var_i32().ok(), c.read_u8().ok());
-    let want = (Some(x), Some(SENTINEL));
-    if r1 != want || r2 != want || r3 != want {
-        return Err(format!("i32 {x}: read back Slice {r1:?} Owned {r2:?} Context {r3:?} from {:02x?}", b.vec));
+    let len = b.vec.len();
+    for &tail in tails(z) {
+        b.vec.truncate(len);
+        b.vec.extend_from_slice(&TAIL[..tail]);
+        let mut s = SliceInput::new(&b.vec);
+        let r1 = (s.read_var_i32().ok(), s.read_u8().ok());
+        let mut o = OwnedInput::new(b.vec.clone());
+        let r2 = (o.read_var_i32().ok(), o.read_u8().ok());
+        let mut c = DeserializationContext::new(&b.vec);
+        let r3 = (c.read_var_i32().ok(), c.read_u8().ok());
+        let want = (Some(x), TAIL[..tail].first().copied());
+        if r1 != want || r2 != want || r3 != want {
+            return Err(format!("i32 {x}: read back Slice {r1:?} Owned {r2:?} Context {r3:?} from {:02x?}", b.vec));
+        }
     }
     Ok(())
+}
+
+/// what follows the value in the buffer it is read from: the sentinel, then bytes with and without the continuation
+/// bit. Every value is read with 1 and with 9 bytes behind it; values next to a width boundary with 0..=16.
+const TAIL: [u8; 16] = [SENTINEL, 0xA5, 0x5A, 0xFF, 0x81, 0x7F, 0xC3, 0x3C, 0x99, 0x01, 0x80, 0xE7, 0x18, 0xFE, 0x02, 0xB4];
+const TAILS_ALL: [usize; 17] = [0, 1, 2, 3, 4, 5, 6, 7, 8, 9, 10, 11, 12, 13, 14, 15, 16];
+fn tails(u: u32) -> &'static [usize] {
+    let near = |p: u64| (u as u64).abs_diff(p) <= 2;
+    if near(0) || near(1 << 7) || near(1 << 14) || near(1 << 21) || near(1 << 28) || near(1 << 31) || near(u32::MAX as u64) {
+        &TAILS_ALL
+    } else {
+        &[1, 9]
+    }
 }
 
 fn new_bufs() -> Bufs {
@@ -221,12 +242,30 @@ pub fn run(cx: &Cx) -> PropResult {
             } else if v != reference || bm[..] != reference[..] {
                 bad = Some(format!("stream of {n} values: Vec {:02x?} BytesMut {:02x?} reference {:02x?}", v, &bm[..], reference));
             } else {
+                // read back in order through the three inputs, from a buffer that goes on after the stream
+                let suffix = &TAIL[..(round as usize * 7) % 17];
+                v.extend_from_slice(suffix);
                 let mut c = DeserializationContext::new(&v);
+                let mut sl = SliceInput::new(&v);
+                let mut ow = OwnedInput::new(v.clone());
                 for x in &vals {
-                    let got = if signed { c.read_var_i32().ok().map(|y| y as u32) } else { c.read_var_u32().ok() };
-                    if got != Some(*x) {
-                        bad = Some(format!("stream read back {got:?} instead of {x}"));
+                    let got = if signed { [c.read_var_i32().ok().map(|y| y as u32), sl.read_var_i32().ok().map(|y| y as u32), ow.read_var_i32().ok().map(|y| y as u32)] } else { [c.read_var_u32().ok(), sl.read_var_u32().ok(), ow.read_var_u32().ok()] };
+                    if got != [Some(*x); 3] {
+                        bad = Some(format!("stream read back (Context, Slice, Owned) {got:?} instead of {x}"));
                         break;
+                    }
+                }
+                if bad.is_none() {
+                    let rest = |i: &mut dyn BinaryInput| {
+                        let mut n = 0;
+                        while i.read_u8().is_ok() {
+                            n += 1;
+                        }
+                        n
+                    };
+                    let left = [rest(&mut c), rest(&mut sl), rest(&mut ow)];
+                    if left != [suffix.len(); 3] {
+                        bad = Some(format!("after the stream (Context, Slice, Owned) have {left:?} bytes left instead of {}", suffix.len()));
                     }
                 }
             }
@@ -253,7 +292,7 @@ pub fn run(cx: &Cx) -> PropResult {
     let mut r = PropResult::new(
         acc,
         "exploration",
-        "values x: +-4096 around every width boundary (2^7, 2^14, 2^21, 2^28, 2^31, 0, 2^32-1) for u32 and for the zig-zag pre-images for i32, the lattice k*65537, and seeded random values of uniformly chosen bit length; thorough tier in the release profile enumerates all 2^32 u32 and all 2^32 i32 values (values of an enumeration are distinct by construction and are counted, not hashed). Oracle: bytes written to Vec<u8> and BytesMut equal the independently computed LEB128 / zig-zag reference, SizeCalculator.size() == that length == minimal length, continuation bit on all but the last byte, SliceInput / OwnedInput / DeserializationContext read the value back and leave a sentinel byte unread. Also streams of 1-40 values appended to one Vec<u8> and one BytesMut (fresh, or with 1-9 bytes of initial capacity so that it must grow mid-value) and read back in order. Non-trivial = needs >= 2 bytes.",
+        "values x: +-4096 around every width boundary (2^7, 2^14, 2^21, 2^28, 2^31, 0, 2^32-1) for u32 and for the zig-zag pre-images for i32, the lattice k*65537, and seeded random values of uniformly chosen bit length; thorough tier in the release profile enumerates all 2^32 u32 and all 2^32 i32 values (values of an enumeration are distinct by construction and are counted, not hashed). Oracle: bytes written to Vec<u8> and BytesMut equal the independently computed LEB128 / zig-zag reference, SizeCalculator.size() == that length == minimal length, continuation bit on all but the last byte, SliceInput / OwnedInput / DeserializationContext read the value back and leave the sentinel byte that follows unread. Every value is read with 1 and with 9 further bytes behind it (values within 2 of a width boundary: 0..=16 bytes, with and without continuation bits). Also streams of 1-40 values appended to one Vec<u8> and one BytesMut (fresh, or with 1-9 bytes of initial capacity so that it must grow mid-value) and read back in order through all three inputs from a buffer that continues for 0-16 bytes. Non-trivial = needs >= 2 bytes.",
     );
     if exhaustive {
         r.exhaustive = Some(true);
